@@ -314,6 +314,31 @@ def runD (d : Dev) (w : List Nat) : List Item × List Item :=
 
 def run : List Nat → List Item × List Item := runD Dev.none
 
+/-! ### The Escape key (C08)
+
+A lone ESC followed by silence is the Escape key: it is reported as `C0 0x1B` and whatever follows
+is parsed from the ground state (no sequence in progress, no string terminator pending). -/
+
+def escKey (m : M) : M × List Item :=
+  ({ m with s := .ground, afterString := false, fresh := false }, [.c0 0x1B])
+
+/-- Run segments of runes; every segment but the last ends in a lone ESC (the ESC itself is the
+    last rune of the segment and is processed as ESC: it cancels/ends whatever was in progress). -/
+def runSegmentsD (d : Dev) : M → List (List Nat) → M × List Item
+  | m, [] => (m, [])
+  | m, [w] => runFromD d m w
+  | m, w :: rest =>
+    let (m1, o1) := runFromD d m w
+    let (m2, o2) := escKey m1
+    let (m3, o3) := runSegmentsD d m2 rest
+    (m3, o1 ++ o2 ++ o3)
+
+def runWithEscKeysD (d : Dev) (segs : List (List Nat)) : List Item × List Item :=
+  let (m, out) := runSegmentsD d {} segs
+  (out, (acts m 0 (exit m.s)).2)
+
+def runWithEscKeys : List (List Nat) → List Item × List Item := runWithEscKeysD Dev.none
+
 /-! ### UTF-8: every well-formed scalar is one rune; every other byte is delivered raw. -/
 
 def cont (b : Nat) : Bool := decide (0x80 ≤ b ∧ b ≤ 0xBF)
